@@ -472,10 +472,42 @@ def needed_from(g, roots):
     return seen
 
 
+def make_ring(seed):
+    """A ring of 2-3 guarded cells: B_i = IF(A_i, B_next, i) or IFERROR(x_i, B_next), the
+    guards set independently - a cycle that can be cut at several guards whose states
+    differ (one seed in five of make_cyclic)."""
+    rnd = random.Random(seed * 31 + 1)
+    g = Gen(rnd, sheets=LAYOUT[:1], features=())
+    b, s = LAYOUT[0]
+    k = rnd.choice([2, 2, 3])
+    guards = [rnd.random() < 0.5 for _ in range(k)]
+    for i in range(k):
+        gid = cid(b, s, 1, i + 1)
+        g.cells[gid] = {'k': 'c', 'v': V.B(guards[i])}
+        g.order.append(gid)
+    ring = [cid(b, s, 2, i + 1) for i in range(k)]
+    for i in range(k):
+        nxt = ring[(i + 1) % k]
+        if rnd.random() < 0.7:
+            e = ['fn', 'IF', [['ref', cid(b, s, 1, i + 1)], ['ref', nxt], ['c', norm(V.N(i + 1))]]]
+        else:
+            first = ['c', V.E('NA')] if guards[i] else ['c', norm(V.N(i + 1))]
+            e = ['fn', 'IFERROR', [first, ['ref', nxt]]]
+        g.cells[ring[i]] = {'k': 'f', 'e': e}
+        g.order.append(ring[i])
+    tot = cid(b, s, 4, 1)
+    g.cells[tot] = {'k': 'f', 'e': ['op', '+', ['ref', ring[0]], ['ref', ring[1]]]}
+    g.order.append(tot)
+    g.seed = seed
+    return g
+
+
 def make_cyclic(seed, n_cells=8):
     """An acyclic workbook with 1-3 back references injected: unguarded, behind
     an IF guard (selected or not), behind IFERROR's fallback, through a range
-    or through a name."""
+    or through a name; one seed in five is a ring of guarded cells (make_ring)."""
+    if seed % 5 == 0:
+        return make_ring(seed)
     g = make(seed, n_cells=n_cells, features=['names'])
     rnd = random.Random(seed * 7919 + 13)
     forms = [i for i in g.order if g.cells[i]['k'] == 'f']
